@@ -3,6 +3,7 @@
   implementation's exact outputs.  Core Lean only.  Soundness statements live in AITB.Props.C11Check.
 -/
 import AITB.Model.Learners
+import AITB.Gen.C11Guards
 namespace AITB.Learn
 
 /-- the hull interval `[min(rmin,0), max(rmax,0)]/(1-γ)` written with `if` (core Lean) -/
@@ -32,5 +33,26 @@ def bellmanResidual (m : MDP) (q : QF) : Rat :=
   ((List.range m.S).flatMap (fun s => (List.range m.A).map (fun a =>
       absR (q s a - (m.R s a + m.γ * sumTo m.S (fun s1 => m.T s a s1 * maxA m.A (q s1))))))).foldl
     (fun acc x => if acc < x then x else acc) 0
+
+/-- The NON-Eigen branch of `PrioritizedSweeping::stepUpdateQ` computes
+    `Σ_{s1 : checkDifferentSmall(T(s,a,s1), 0)} T(s,a,s1) * (R(s,a,s1) + γ V(s1))`, i.e. it is the Eigen branch (`psStep`) run on
+    the MDP whose transitions of probability `≤ PrioritizedSweeping_generic_skip_tolerance` (re-extracted from the source: 1e-6
+    for `checkDifferentSmall(p, 0.0)`, 0 for `p != 0.0`) have been removed (rows then sum to less than one)
+    and whose expected reward is taken over the remaining transitions.  `R3 s a s1` is `getExpectedReward(s,a,s1)`. -/
+def truncMDP (S A : Nat) (γ : Rat) (T R3 : Nat → Nat → Nat → Rat) : MDP :=
+  let T' := fun s a s1 => if absR (T s a s1 - 0) ≤ AITB.Gen.C11.PrioritizedSweeping_generic_skip_tolerance then 0 else T s a s1
+  { S := S, A := A, γ := γ, T := T', R := fun s a => sumTo S (fun s1 => T' s a s1 * R3 s a s1) }
+
+/-- `stepUpdateQ` with the backup taken on `mb` and the parent loop on `mq`.  The Eigen branch is `psStepG m m` (= `psStep m`);
+    the generic branch is `psStepG (truncMDP …) m`: its backup skips small transitions but its parent loop
+    (`p * model_.getTransitionProbability(ss,a,s) > theta_`) does not. -/
+def psStepG (mb mq : MDP) (θ : Rat) (st : PS) (s a : Nat) : PS :=
+  let q' := upd st.q s a (mb.R s a + sumTo mb.S (fun s1 => mb.T s a s1 * (st.v s1 * mb.γ)))
+  let vs := maxA mb.A (q' s)
+  let p := absR (vs - st.v s)
+  let v' := fun x => if x = s then vs else st.v x
+  { q := q', v := v', queue := parentLoop mq θ p s st.queue, done := (s, a) :: st.done }
+
+theorem psStepG_self (m : MDP) (θ : Rat) (st : PS) (s a : Nat) : psStepG m m θ st s a = psStep m θ st s a := rfl
 
 end AITB.Learn
